@@ -84,12 +84,18 @@ EvSwap == /\ Is("sw") /\ Idle /\ Alive(E.o) /\ Alive(E.a)
           /\ \/ obj' = [obj EXCEPT ![E.a].lst = obj[E.o].lst, ![E.o].lst = obj[E.a].lst]
              \/ obj' = [obj EXCEPT ![E.a].lst = obj[E.o].lst, ![E.o].lst = obj[E.a].lst, ![E.a].flt = obj[E.o].flt, ![E.o].flt = obj[E.a].flt]
           /\ UNCHANGED <<exp, running, ncb, nflt>> /\ Ledger
+\* C09: an operation failed with an injected fault and left everything as it was; a failed copy ASSIGNMENT of a dispatcher / queue
+\* leaves the destination in some valid state (not constrained here: the harness only destroys it), the source untouched
+EvFaulted == Is("xf") /\ Idle /\ UNCHANGED <<obj, exp, running, ncb, nflt>> /\ Ledger
+EvAssignFaulted == /\ Is("xa") /\ Idle /\ Alive(E.o) /\ Alive(E.a) /\ UNCHANGED <<obj, exp, running, ncb, nflt>>
+                   /\ E.pv = Pend(obj)
 EvDestroy == /\ Is("de2") /\ Idle /\ Alive(E.o) /\ obj' = [obj EXCEPT ![E.o] = Dead] /\ UNCHANGED <<exp, running, ncb, nflt>> /\ Ledger
 EvReset == /\ Is("rs") /\ Idle /\ \A o \in Objs : ~obj[o].alive /\ E.lv = 0 /\ E.pv = 0
            /\ obj' = [o \in Objs |-> IF o = 1 THEN [Dead EXCEPT !.alive = TRUE] ELSE Dead] /\ exp' = <<>> /\ running' = 0 /\ ncb' = 0 /\ nflt' = 0
 
 Next == \/ EvAppend \/ EvRemoveFirst \/ EvAppendFilter \/ EvDispatchBegin \/ EvFilter \/ EvEnter \/ EvDispatchEnd
         \/ EvEnqueue \/ EvProcessBegin \/ EvProcessEnd \/ EvEmptyQ \/ EvWaitFor
+        \/ EvFaulted \/ EvAssignFaulted
         \/ EvCopyConstruct \/ EvCopyAssign \/ EvMoveConstruct \/ EvMoveAssign \/ EvSwap \/ EvDestroy \/ EvReset
 Report == IF TLCGet("stats").diameter - 1 = Len(TraceLog) THEN TRUE
           ELSE PrintT(<<"REJECTED", TLCGet("stats").diameter, Len(TraceLog)>>) /\ FALSE
